@@ -645,6 +645,11 @@ func c19Run(repo, fitgen, dir string, cfg c19Config) (string, c19Info) {
 		var cmd *exec.Cmd
 		if run < 2 {
 			cmd = exec.Command(fitgen, "-sdk", cfg.version, xlsxPath, out)
+		} else if run == 2 {
+			// relative paths, resolved against the working directory
+			rz, _ := filepath.Rel(dir, zipPath)
+			ro, _ := filepath.Rel(dir, out)
+			cmd = exec.Command(fitgen, rz, ro)
 		} else {
 			cmd = exec.Command(fitgen, zipPath, out)
 		}
